@@ -24,6 +24,7 @@ func init() {
 
 func runC12(p *eng.Prog, r *eng.Report, tier string) {
 	c := &cx{p, r, tier}
+	importRules(c, "C11", []string{"C11.4"}, "C12.24")
 	importRules(c, "C11", []string{"C11.5"}, "C12.23")
 	r17ConfigRefreshedIntoTheSharedVariable(c, "C12.21")
 	r17BindPayloadNamespaced(c, "C12.22")
